@@ -4,12 +4,17 @@ import json, subprocess, sys, tempfile, os
 import xml.etree.ElementTree as ET
 base = json.load(open("/root/.vp/BASELINE.json"))
 extra = sys.argv[1:]
+repo = "/repo"
+if "--repo" in extra:
+    at = extra.index("--repo")
+    repo = extra[at + 1]
+    del extra[at:at + 2]
 with tempfile.TemporaryDirectory() as tmp:
     xml = os.path.join(tmp, "r.xml")
     cmd = ["/venv/bin/python", "-m", "pytest", "-ra", "-q", "-p", "no:cacheprovider", "--timeout=900",
            "--continue-on-collection-errors", f"--junitxml={xml}"] + extra
     env = {k: v for k, v in os.environ.items() if k != "ANTISMASH_VERIF"}
-    proc = subprocess.run(cmd, cwd="/repo", capture_output=True, text=True, env=env)
+    proc = subprocess.run(cmd, cwd=repo, capture_output=True, text=True, env=env)
     passed = set()
     for case in ET.parse(xml).getroot().iter("testcase"):
         if not any(child.tag in ("failure", "error", "skipped") for child in case):
